@@ -45,9 +45,13 @@ class Interp(seq_detached.DetachedMixin, S.SeqRun):
             out[a.name] = a.default
         return out
 
+    def ent_order(self):
+        return S.ENT_ORDER + (('Profile', 'Profile') if 'Profile' in self.schema.by_name else ())
+
     # ------------------------------------------------------------------ modifications
     def op_new(self, a, b, c, via_collection=None):
-        e = self.schema.by_name[S.ENT_ORDER[a % len(S.ENT_ORDER)]]
+        order = self.ent_order()
+        e = self.schema.by_name[order[a % len(order)]]
         kw = self.scalar_kwargs(e, b, c)
         rel_mids = {}
         for i, ra in enumerate(e.to_ones()):
@@ -101,8 +105,19 @@ class Interp(seq_detached.DetachedMixin, S.SeqRun):
             mo.vals = self.default_vals(e)
             mo.vals.update(kw)
             if not e.auto_pk:
-                pkv = tuple(mo.vals.get(x.name) for x in e.pk_attrs if not x.is_rel)
-                if all(x is not None for x in pkv):
+                pkv = ()
+                for x in e.pk_attrs:
+                    if x.is_rel:
+                        # a reference in the primary key: the key is the target's key (known once that is stored)
+                        t = rel_mids.get(x.name)
+                        if t is None and via is not None and via[1].reverse is x:
+                            t = via[0]
+                        tp = v.objs[t].pk if t is not None else None
+                        pkv = None if (pkv is None or tp is None) else pkv + tuple(tp)
+                    else:
+                        val = mo.vals.get(x.name)
+                        pkv = None if (pkv is None or val is None) else pkv + (val,)
+                if pkv is not None:
                     mo.pk = pkv
             for ra in e.to_ones():
                 if ra.name in rel_mids:
@@ -119,6 +134,7 @@ class Interp(seq_detached.DetachedMixin, S.SeqRun):
         st, res = self.modify(desc, pony, model, must_fail=dup, mids=list(rel_mids.values()) + [m for ms in set_mids.values() for m in ms] + ([via[0]] if via else []))
         if st == 'ok':
             self.register(mid, box['obj'])
+            self.last_created = mid
             self._note_keys_taken(e, self.view.objs[mid])
             if e.auto_pk:
                 self.probe('created_auto_pk')
@@ -129,7 +145,7 @@ class Interp(seq_detached.DetachedMixin, S.SeqRun):
     def _would_duplicate(self, e, mid, vals):
         """R3: a duplicate among objects the session view knows (the model knows the whole database here)"""
         keys = []
-        if not e.auto_pk:
+        if not e.auto_pk and not any(a.is_rel for a in e.pk_attrs):
             keys.append(tuple(a.name for a in e.pk_attrs))
         keys += [(a.name,) for a in e.attrs if a.opts.get('unique') and not a.is_rel and not a.is_pk]
         keys += list(e.composite_keys)
@@ -156,7 +172,7 @@ class Interp(seq_detached.DetachedMixin, S.SeqRun):
                 self.released_keys.add((e.name, k, vs))
 
     def _key_sets(self, e):
-        ks = [tuple(a.name for a in e.pk_attrs if not a.is_rel)] if not e.auto_pk else []
+        ks = [tuple(a.name for a in e.pk_attrs)] if (not e.auto_pk and not any(a.is_rel for a in e.pk_attrs)) else []
         ks += [(a.name,) for a in e.attrs if a.opts.get('unique') and not a.is_rel and not a.is_pk]
         ks += list(e.composite_keys)
         return ks
@@ -199,7 +215,10 @@ class Interp(seq_detached.DetachedMixin, S.SeqRun):
         if mo is None or mo.pk is None:
             return None
         e = self.schema.by_name[mo.ent]
-        pa = [x for x in e.pk_attrs if not x.is_rel][b % len(e.pk_attrs)]
+        spk = [x for x in e.pk_attrs if not x.is_rel]
+        if not spk:
+            return None
+        pa = spk[b % len(spk)]
         same = c % 3 == 0
         cur = mo.vals.get(pa.name)
         if pa.auto:
@@ -351,6 +370,57 @@ class Interp(seq_detached.DetachedMixin, S.SeqRun):
             self._note_keys_released(e, old_vals)
             self._note_keys_taken(e, self.view.objs[mo.mid])
         return st
+
+    def create_fresh(self, ent, r, depth=0):
+        """create an object of the entity together with new objects for (most of) the references it requires;
+        returns its model id or None"""
+        e = self.schema.by_name[ent]
+        kw = self.scalar_kwargs(e, r.below(1000), r.below(1000))
+        rel_mids = {}
+        for ra in e.to_ones():
+            if not ra.required:
+                continue
+            t = None
+            if depth < 2 and r.chance(0.75):
+                t = self.create_fresh(ra.rel, r, depth + 1)
+            if t is None:
+                tgt = self.pick(r.below(1000), ra.rel)
+                if tgt is None:
+                    return None
+                t = tgt.mid
+            rel_mids[ra.name] = t
+        self.last_created = None
+        st = self._create(e, kw, rel_mids, {})
+        return self.last_created if st == 'ok' else None
+
+    def op_late_link(self, a, b, c):
+        """An object that is already waiting to be saved gets a reference to an object created after it, which in
+        turn depends on objects created with it: the flush has to save them in dependency order, not in the order
+        they were queued (C16)"""
+        mo = self.pick(a)
+        if mo is None:
+            return None
+        e = self.schema.by_name[mo.ent]
+        tos = [ra for ra in e.to_ones() if not ra.is_pk and getattr(self.E[e.name], ra.name).columns]
+        if not tos:
+            return None
+        ra = tos[b % len(tos)]
+        r = Rng(0, 'late_link', a, b, c)
+        self.handle_or_poison(mo.mid)
+        if r.chance(0.7):
+            self.op_set(a, r.below(1000), r.below(1000))        # same 'a': the same object; queues it for saving
+        tmid = self.create_fresh(ra.rel, r)
+        if tmid is None or self.view.objs[mo.mid].deleted:
+            return None
+        desc = 'rel %s#%d.%s=#%d' % (mo.ent, mo.mid, ra.name, tmid)
+
+        def pony():
+            setattr(self.handle(mo.mid), ra.name, self.handle(tmid))
+
+        def model(v):
+            v.set_to_one(mo.mid, ra, tmid)
+
+        return self.modify(desc, pony, model, mids=[mo.mid, tmid])[0]
 
     def op_rel(self, a, b, c):
         mo = self.pick(a)
@@ -783,7 +853,8 @@ class Interp(seq_detached.DetachedMixin, S.SeqRun):
         return sorted(o.mid for o in self.view.live(e.name) if o.vals.get(attr.name) == val)
 
     def op_r_get(self, a, b, c, exists=False):
-        e = self.schema.by_name[S.ENT_ORDER[a % len(S.ENT_ORDER)]]
+        order = self.ent_order()
+        e = self.schema.by_name[order[a % len(order)]]
         attrs = [x for x in e.scalars() if not x.auto]
         at = attrs[b % len(attrs)]
         p = pool(e.name, at.name)
@@ -811,7 +882,8 @@ class Interp(seq_detached.DetachedMixin, S.SeqRun):
             self.viol('C11', 'lookup-returned-other-object', e.name, what)
 
     def op_r_select(self, a, b, c, count=False):
-        e = self.schema.by_name[S.ENT_ORDER[a % len(S.ENT_ORDER)]]
+        order = self.ent_order()
+        e = self.schema.by_name[order[a % len(order)]]
         P = self.E[e.name]
         attrs = [x for x in e.scalars() if not x.auto]
         at = attrs[b % len(attrs)]
@@ -1186,6 +1258,8 @@ class Interp(seq_detached.DetachedMixin, S.SeqRun):
             self.op_setpk(a, b, c)
         elif name == 'setmany':
             self.op_setmany(a, b, c)
+        elif name == 'late_link':
+            self.op_late_link(a, b, c)
         elif name == 'setmix':
             self.op_setmix(a, b, c)
         elif name == 'seq_probe':
